@@ -427,7 +427,9 @@ impl Sim {
             _ => 3,
         };
         let proposer_addr: tendermint::account::Id = self.uni.validator_address(self.rng.gen_range(0..self.uni.validators.len()));
-        let max_tx_bytes = self.uni.max_tx_bytes;
+        // at an upgrade height the block must carry the upgrade change hashes next to the commitments: an environment whose byte limit
+        // is below those mandatory items admits no valid block at all, which is not a situation the property speaks about
+        let max_tx_bytes = if height == self.upgrades.0 || height == self.upgrades.1 { self.uni.max_tx_bytes.max(2_048) } else { self.uni.max_tx_bytes };
         let mut decided: Option<BlockCtx> = None;
         for round in 0..nrounds {
             let last = round + 1 == nrounds;
